@@ -11,6 +11,7 @@ import Q1t.Proofs.CQasmWFWitness
 import Q1t.Proofs.CQasmComplex
 import Q1t.Proofs.CQasmEquivExample
 import Q1t.Proofs.CQasmEquivDensity
+import Q1t.Proofs.CQasmTextWitness
 /-!
 # C12 — the c-QASM export preserves the circuit's semantics or fails
 
@@ -18,14 +19,17 @@ Model: `Q1t/Model/CQasm.lean` (`Circuit::c_qasm`, every gate's `c_qasm` / `condi
 generated table `Gen.cqGates`).  Reference: `Q1t/Spec/CQ1.lean` (a cQASM 1.0 subset: parser, well-formedness, meaning
 of every instruction, single-shot branching semantics) and `Q1t/Spec/Born.lean` (the circuit).
 
-Full statement (FALSE on the pinned code: defect classes witnessed below.  Its well-formedness half is proved outside
-the syntactic defect classes: `cq_wellformed_partial`.  Its equivalence half is proved OPERATION BY OPERATION on the level of values
-(`cq_equiv_*_partial`, section at the end); the composition to whole programs and the exactness of the parse are NOT
-proved and are checked by the correspondence (B) on every run):
+Full statement (FALSE on the pinned code: defect classes witnessed below):
 
   `cq_wellformed` / `cq_equiv`: for every circuit `c` whose operations can be simulated, `exportText c` is an error, or
   a text `t` with `parseProgram t = ok p`, `programWf p = none` and, for every register word `w`,
   `density (programSem p) w = density (Born.branches c) w`.
+
+Its well-formedness half is proved outside the syntactic defect classes (`cq_wellformed_partial`).  The WHOLE statement is
+proved for the exported TEXT on the decidable class `classOp` (`cq_equiv_text_partial`, last section), under the named
+hypothesis `ReadsBack` about the number printer / reader, in a lawful trigonometric context, for the non-zero test that
+keeps every branch, `0 < nq ≤ 64`.  Outside that class (and for other non-zero tests) the correspondence (B) checks it on
+every run.
 
 What is proved here, for ALL circuits / control lists / targets / words / angles unless a finite table IS the
 quantifier: the structure of the export (`cq_structure*`), the refusals (`cq_refuses`), the `not` bracketing
@@ -402,9 +406,8 @@ Carrier: the branches of `Spec/Born` (`(unnormalised state, register word)`).  `
 * `cq_equiv_measure_partial`, `cq_equiv_prep_partial`, `cq_equiv_barrier_partial` — `measure / measure_x / measure_y` of
   qubit `q` into bit `q`, `prep_z`, barriers.
 
-NOT proved: (1) that the parsed program of the exported TEXT is this value-level statement list (needs the exact parse
-results and a number round trip `S.angle (parse (N.disp x)) = x`; `cq_wellformed_partial` gives parsing and
-well-formedness only); (2) [closed: `cq_equiv_partial` below folds the operations] (3) [closed for `CZ Swap CS CT CY CCX CCZ CU1` (exact, `exactAll`) and `V Vdg U1 CU3` (up to a phase,
+(1) [closed under `ReadsBack`: `cq_text_partial`, `cq_equiv_text_partial` — the parsed program of the exported TEXT is this
+value-level statement list]; (2) [closed: `cq_equiv_partial` below folds the operations] (3) [closed for `CZ Swap CS CT CY CCX CCZ CU1` (exact, `exactAll`) and `V Vdg U1 CU3` (up to a phase,
 `cq_equiv_phase_partial`)]; `Kron` bundles, `Composite`, unconditioned `Loop` closed by `cq_equiv_term_partial`;
 conditional terms with one-line leaves closed by `cq_equiv_cond_term_partial`; `measure_all` in Z closed (up to a
 permutation of the branch list; keep-all non-zero test) by `cq_equiv_measure_all_partial`, and the per-word densities by
@@ -580,16 +583,15 @@ theorem cq_equiv_density_partial (h : LawfulAmp α P) (hh : Proofs.Unitaries.Law
 example := AmpComplex.equiv_example_cond_measureAll
 
 
-/-! ### text ↔ values: first pieces (the rest is NOT proved)
+/-! ### text ↔ values
 
 `ReadsBack N S val` is the named hypothesis about the number printer / reader (extends `GoodNum`): reading back a printed
 number gives its value, an evaluated hole of a good template evaluates to a number whose value is the value-level
-reading of the hole (`holeVal`), and `crk 1`, `crk 2` are the phases `i`, `e^{iπ/4}`.  Proved so far: a parsed gate
+reading of the hole (`holeVal`), and `crk 1`, `crk 2` are the phases `i`, `e^{iπ/4}`.  First pieces: a parsed gate
 instruction whose matrix `Spec/CQ1` determines IS the value-level statement `gate ctrl qubits M`
 (`cq_instr_is_value_line`), and `Spec/CQ1.gateMatrix` on literals that read back as the values agrees with the
-value-level table (`cq_gateMatrix_of_values`).  Missing: the exact parse result of every exported line (the
-well-formedness proof only shows existence), its assembly into `parseProgram`'s sub-circuit structure, and hence
-`programSem (parse (exportText c)) = dSeq (denotation c)` under `ReadsBack`. -/
+value-level table (`cq_gateMatrix_of_values`).  The exact parse result of every exported line, the assembly through
+`parseProgram`'s sub-circuit structure and the whole-circuit theorem are in the last section (`cq_text_*`). -/
 
 theorem cq_instr_is_value_line (S : CQ1.NumSem α P) (n : Nat) (nz : List α → Bool) (i : CQ1.Instr) (M : LMat α)
     (hg : CQ1.isGate i.name = true) (hM : CQ1.gateMatrix S i.name (CQ1.numArgs i.args) = some M)
@@ -610,6 +612,102 @@ example (θ : ℝ) := AmpComplex.equiv_example θ
 /-- non-vacuity over ℂ: `CCRX` for every real angle on qubits `[4, 0, 2]` of a 5-qubit register -/
 example (θ : ℝ) := cq_equiv_gate_partial (α := ℂ) AmpComplex.lawful AmpComplex.lawfulHalf AmpComplex.lawfulNegHalf
   "CCRX" (by decide) [θ] (by rw [slines_table.2.2.2.2.2.2.2.2.2.2.2.2.2.2.2.2.2.2.2.2.2.2.2]; rfl) 5 [4, 0, 2] (by decide) (by decide)
+
+
+/-! ### The text link (`cq_text_*`): from the exported TEXT to its meaning
+
+Under `ReadsBack` (see above).  `F` is the type of the numbers as the circuit holds and prints them, `val : F → P` their
+values; `mapGate val` / `mapOp val` read a gate term / an operation with the values of its numbers. -/
+
+/-- **the assembly through `parseProgram`** (generic in what the lines are): if the code lines of the body are statement
+lines that parse to statements denoting value-level statement lists, and sections `.label(k)` / statement lines / `.end`
+(`ProgDen`), then the program text parses, is well formed over `n` qubits, and means `dSeq D` from `|0…0⟩` — a section's
+statements repeated `k` times; what follows `.end` is in the sub-circuit `end`, once. -/
+theorem cq_text_assembly (S : CQ1.NumSem α P) (n : Nat) (hn : 0 < n) (nz : List α → Bool) (rest : Text)
+    (D : List (DStmt α)) (h : ProgDen S n nz (CQ1.codeLines rest) D) :
+    ∃ p, CQ1.parseProgram ("version 1.0".toList ++ '\n' :: (("qubits ".toList ++ natText n) ++ '\n' :: rest)) = .ok p ∧
+      p.nq = n ∧ CQ1.programWf p = none ∧ CQ1.programSem S nz p = some (dSeq n nz D (CQ1.initial n)) :=
+  parseProgram_den S n hn nz rest D h
+
+/-- **the exact parse result and meaning of every line of a library gate's translation**: for a good gate `g` of the
+generated table, direct parameters, a placement without repetition in range, and the value-level lines `apps`
+(`exactDenot`): the exported text is the list of printed lines, one per value-level line, and for each
+(`LineFacts`): the line is clean (one code line), parses as ONE instruction that is well formed and IS the statement
+`gate [] (placed qubits) M`; and with the `c-` prefix on any non-empty control list in range (`defaultCond`) it parses
+as the statement `gate control (placed qubits) M`. -/
+theorem cq_text_lib_lines {F : Type} (N : Num F) (S : CQ1.NumSem α P) (val : F → P) (RB : ReadsBack (α := α) N S val)
+    (nq : Nat) (nz : List α → Bool) (name : String) (ps : List (Param F)) (bits : List Nat)
+    (hs : libSound name ps = true) (hl : bits.length = libBits name) (hn : bits.Nodup) (hb : ∀ b ∈ bits, b < nq)
+    (t : Text) (h : libCQasm Gen.cqGates N (qNames nq) name ps bits = .ok t)
+    (apps : List (List Nat × LMat α)) (happs : exactDenot (α := α) name (ps.map fun p => val p.value) = some apps) :
+    ∃ g lines, Gen.cqGates.find? (·.name == name) = some g ∧ lines.length = (slinesOf g).length ∧
+      t = intercalate ['\n'] lines ∧ List.Forall₂ (LineFacts S nq nz bits) lines apps :=
+  lib_den N S val RB nq nz name ps bits hs hl hn hb t h apps happs
+
+/-- **`c_qasm` of a gate term, with its meaning** (library gates, bundles `{ a | b }` as ONE statement of two
+instructions, composites, loops as `.label(k)` … `.end` sections; `inLoop`: inside a loop, where the text is statement
+lines only) -/
+theorem cq_text_term {F : Type} (N : Num F) (S : CQ1.NumSem α P) (val : F → P) (RB : ReadsBack (α := α) N S val)
+    (nq : Nat) (nz : List α → Bool) (g : XGate F) (inLoop : Bool) (hok : termOK inLoop (mapGate val g) = true)
+    (hs : gateSound false g = true) (bits : List Nat) (hl : bits.length = nrBits g) (hn : bits.Nodup)
+    (hb : ∀ b ∈ bits, b < nq) (t : Text) (h : cQasm Gen.cqGates N (qNames nq) g bits = .ok t)
+    (L : List (List Nat × LMat α)) (hL : gateLinesN (α := α) (mapGate val g) bits = some L) :
+    TextDen S nq nz t (gateLines L) ∧ (inLoop = true → PlainDen S nq nz t (gateLines L)) :=
+  cQasm_den N S val nq nz RB g inLoop hok hs bits hl hn hb t h L hL
+
+/-- **`conditional_c_qasm` of a gate term whose leaves have one-line translations, with its meaning**: statement lines
+only (loops unrolled), every one the `c-` form on the control bits -/
+theorem cq_text_cond_term {F : Type} (N : Num F) (S : CQ1.NumSem α P) (val : F → P) (RB : ReadsBack (α := α) N S val)
+    (nq : Nat) (nz : List α → Bool) (control : List Nat) (hc : control ≠ []) (hcb : ∀ k ∈ control, k < nq)
+    (g : XGate F) (hok : condTermOK (mapGate val g) = true) (hs : gateSound true g = true) (bits : List Nat)
+    (hl : bits.length = nrBits g) (hn : bits.Nodup) (hb : ∀ b ∈ bits, b < nq) (t : Text)
+    (h : condCQasm Gen.cqGates N (intercalate ", ".toList (control.map bName)) (qNames nq) g bits = .ok t)
+    (L : List (List Nat × LMat α)) (hL : gateLinesN (α := α) (mapGate val g) bits = some L) :
+    PlainDen S nq nz t (condLines control L) :=
+  condCQasm_den N S val nq nz RB control hc hcb g hok hs bits hl hn hb t h L hL
+
+/-- **cq_text_partial**: for every circuit with at least one qubit whose operations are of the class `TextOp` (gate
+terms of `termOK` outside the syntactic defect classes; conditional terms of `condTermOK` on a non-empty control list in
+range of at most 64 bits — repetitions and over-wide targets allowed: the TEXT still means its statements; `measure` /
+`measure_x` / `measure_y` of `q` into bit `q`; `measure_all` in Z; `prep_z`; barriers): if `Circuit::c_qasm` returns
+the text `t`, then `parseProgram t = ok p`, `p` is well formed over the circuit's qubits, and
+`programSem p = dSeq (the operations' statements)` from `|0…0⟩`. -/
+theorem cq_text_partial {F : Type} (N : Num F) (S : CQ1.NumSem α P) (val : F → P) (nz : List α → Bool)
+    (RB : ReadsBack (α := α) N S val) (c : XCircuit F) (hpos : 0 < c.nq)
+    (steps : List (XOp F × List (DStmt α))) (hc : c.ops = steps.map (·.1))
+    (hs : ∀ s ∈ steps, TextOp (α := α) val c.nq s.1 s.2) (t : Text) (h : exportText Gen.cqGates N c = .ok t) :
+    ∃ p, CQ1.parseProgram t = .ok p ∧ p.nq = c.nq ∧ CQ1.programWf p = none ∧
+      CQ1.programSem S nz p = some (dSeq c.nq nz (steps.flatMap (·.2)) (CQ1.initial c.nq)) :=
+  exportText_den N S val nz RB c hpos steps hc hs t h
+
+/-- **cq_equiv_text_partial — the full statement on the decidable class `classOp`**: `0 < nq ≤ 64`; every operation
+passes `classOp` (gates: `termOK` ∧ `gateSound` on a valid placement; conditional gates: `condTermOK` ∧ `gateSound` on a
+valid placement with a non-empty control list without repetition in range and a target below `2^len`; `measure` of `q`
+into bit `q` in any basis; `measure_all` in Z into the bits `0..nq-1`; reset; barrier).  If `Circuit::c_qasm` returns
+`t`: `t` parses to `p`, `p` is well formed over `nq` qubits and has a meaning `r1`; the circuit, its numbers read by
+`val`, is the list `cops` of `Spec/Born` operations and has its branch list `r2`; and for EVERY register word `w`
+`density r1 w = density r2 w`. -/
+theorem cq_equiv_text_partial {F : Type} (h : LawfulAmp α P) (hh : Proofs.Unitaries.LawfulHalf α P)
+    (hn : LawfulNegHalf α P) (hq : LawfulQuarter α P) (N : Num F) (S : CQ1.NumSem α P) (val : F → P)
+    (RB : ReadsBack (α := α) N S val) (c : XCircuit F) (hpos : 0 < c.nq) (hn64 : c.nq ≤ 64) (nz : List α → Bool)
+    (hnz : ∀ φ, nz φ = true) (hcl : ∀ op ∈ c.ops, classOp val c.nq op = true) (t : Text)
+    (ht : exportText Gen.cqGates N c = .ok t) :
+    ∃ p r1 cops r2, CQ1.parseProgram t = .ok p ∧ p.nq = c.nq ∧ CQ1.programWf p = none ∧
+      CQ1.programSem S nz p = some r1 ∧
+      (c.ops.map (mapOp val)).mapM toCOp = some cops ∧
+      Spec.branches c.nq nz cops (CQ1.initial c.nq) = some r2 ∧
+      ∀ w, CQ1.density (P := P) (2 ^ c.nq) r1 w = CQ1.density (P := P) (2 ^ c.nq) r2 w :=
+  text_equiv_class h hh hn hq N S val RB c hpos hn64 nz hnz hcl t ht
+
+/-- `ReadsBack` is satisfiable (over ℂ: the one-number printer, every literal read as the angle 0; all hole shapes of
+the generated table are those `holeVal` reads: kernel-checked) … -/
+theorem cq_reads_back_satisfiable : ReadsBack (α := ℂ) unitNum AmpComplex.S0 (fun _ => (0 : ℝ)) :=
+  AmpComplex.readsBack_unit
+
+/-- … and the text theorem is not vacuous: a 12-operation circuit of the class (multi-line parametrised gates, a loop
+around a bundle and a composite, conditional bundle / loop of a phase gate on one and two bits, `measure_y`, reset,
+`measure_all`) is exported and its text has the densities of the circuit -/
+example := AmpComplex.text_equiv_example
 
 end equiv
 
